@@ -176,10 +176,19 @@ def replay(ck, em, rec, rng):
     ubm = em.GMMMachine(C)
     ubm.means, ubm.variances, ubm.weights = centres.copy(), np.ones((C, D)) * 1.2, np.array([0.5, 0.5])
     for kind in ("isv", "jfa"):
+        used_before = bool(r.rand() < 0.4)
+
         def mkfa():
             if kind == "isv":
-                return em.ISVMachine(r_U=1, em_iterations=2, ubm=ubm, random_state=3)
-            return em.JFAMachine(r_U=1, r_V=1, em_iterations=2, ubm=ubm, random_state=3)
+                m = em.ISVMachine(r_U=1, em_iterations=2, ubm=ubm, random_state=3)
+            else:
+                m = em.JFAMachine(r_U=1, r_V=1, em_iterations=2, ubm=ubm, random_state=3)
+            if used_before:
+                # a machine with a past (subspace assigned, a client enrolled and scored) before it is trained
+                m.U = np.array(m.U) * 0.5 + 0.1
+                st = [ubm.acc_stats(X[:3]), ubm.acc_stats(X[3:])]
+                m.score(m.enroll(st), st[:1])
+            return m
         ref = mkfa().fit_using_array(X, y)
         s = sched()
         try:
